@@ -19,6 +19,7 @@ import RtcModel.Lemmas.C07Rtp
 import RtcModel.Lemmas.C07Ice
 import RtcModel.Lemmas.C07Dtls
 import RtcModel.Lemmas.C07Sctp
+import RtcModel.Lemmas.C07Media
 
 namespace RtcModel.Theorems.C07
 open RtcModel.C07
@@ -211,5 +212,28 @@ theorem allocBound_dcepOpen (bs : List UInt8) : (runBuf Sctp.dcepOpenUnmarshal b
   simpa [runBuf] using h
 theorem noPanic_dcepAck (bs : List UInt8) (s : String) : runSlice Sctp.dcepAckUnmarshal bs ≠ .panic s :=
   safe_noPanic (Sctp.dcepAckUnmarshal_safe bs.toArray _ _) s
+
+/-! ## H.264 depacketizer, UDPTL (src/media/depacketizer.rs, src/transports/udptl.rs) -/
+
+/-- `H264Depacketizer::push` is total for **every history** of RTP packets (any sequence numbers, timestamps, marker
+bits and payload bytes) through one depacketizer: Single-NAL, STAP-A walk and the FU-A reassembly state machine. -/
+theorem noPanic_h264History (pkts : List (Nat × Nat × Bool × List UInt8)) (b : Buf) (n : Nat) (s : String) :
+    Media.h264Run {} (pkts.map fun p => (p.1, p.2.1, p.2.2.1, p.2.2.2.toArray)) b n ≠ .panic s :=
+  safe_noPanic (Media.h264Run_safe _ _ b n) s
+
+/-- one `push` allocates at most `256·|payload| + 2·|FU-A buffer| + 1024` bytes (one `MediaSample` per ≥ 2 bytes of a
+STAP-A payload), and the FU-A buffer grows by at most the payload — memory follows the bytes actually received. -/
+theorem allocBound_h264Push (st : Media.H264St) (seq ts : Nat) (marker : Bool) (payload : List UInt8) (b : Buf) :
+    (Media.h264Push st seq ts marker payload.toArray b 0).allocs ≤ 256 * payload.length + 2 * st.fua.size + 1024 := by
+  have h := safe_allocs (B := 256 * payload.length + 2 * st.fua.size + 1024)
+    (Media.h264Push_safe (Q := fun _ _ n' => n' ≤ 256 * payload.length + 2 * st.fua.size + 1024)
+      st seq ts marker payload.toArray (b := b) (n := 0) (by simp) (fun _ _ h _ => by simpa using h))
+  exact h
+
+/-- the UDPTL datagram parse (primary + redundant IFP walk) and first delivery are total; allocation ≤ 17·|bs|. -/
+theorem noPanic_udptl (bs : List UInt8) (s : String) : runSlice Media.udptlRecv bs ≠ .panic s :=
+  safe_noPanic (Media.udptlRecv_safe bs.toArray _) s
+theorem allocBound_udptl (bs : List UInt8) : (runSlice Media.udptlRecv bs).allocs ≤ 17 * bs.length := by
+  simpa [runSlice] using safe_allocs (Media.udptlRecv_safe bs.toArray (Buf.ofList []))
 
 end RtcModel.Theorems.C07
